@@ -8,7 +8,7 @@ import re
 V = os.path.dirname(os.path.dirname(os.path.abspath(__file__)))
 import sys
 rnd = sys.argv[1] if len(sys.argv) > 1 else "2"
-ks = {"2": ("3", "4"), "3": ("5", "6")}[rnd]
+ks = {"2": ("3", "4"), "3": ("5", "6"), "4": ("7", "8")}[rnd]
 notes = json.load(open(os.path.join(V, "seeded", f"notes_round{rnd}.json")))
 rows = ["| seed | what it changes (needs) | reported by | first result before strengthening |", "|---|---|---|---|"]
 for d in sorted(os.listdir(os.path.join(V, "seeded"))):
